@@ -181,6 +181,11 @@ func (p *faultPlan) hit(comp string) error {
 	switch kind {
 	case "panic":
 		panic("injected panic in " + comp)
+	case "panic-error":
+		panic(fmt.Errorf("injected error-valued panic in %s", comp))
+	case "panic-runtime":
+		var a []int
+		_ = a[len(comp)] // a real runtime.Error (index out of range)
 	case "ioerr":
 		return errInjectedIO
 	}
@@ -502,7 +507,9 @@ func c12Commands(binary bool) []wire.Cmd {
 	}
 	if binary {
 		cmds = append(cmds, wire.Cmd{Op: "gat", Key: "ka", TTL: 100, Opaque: 0x40}, wire.Cmd{Op: "gat", Key: "kl2", TTL: 100, Opaque: 0x41},
-			wire.Cmd{Op: "set", Key: "ka", Value: v, QuietSet: true, Opaque: 0x42})
+			wire.Cmd{Op: "set", Key: "ka", Value: v, QuietSet: true, Opaque: 0x42},
+			wire.Cmd{Op: "gete", Keys: []string{"ka"}, Opaque: 0x50},
+			wire.Cmd{Op: "gete", Keys: []string{"kb", "kmiss", "ka"}, Opaque: 0x58, NoopEnd: true})
 	}
 	return cmds
 }
@@ -557,7 +564,7 @@ func childC12(args []string) int {
 						if n > 6 && idx > 2 && idx < n-1 && !run.Thorough() {
 							continue
 						}
-						for _, kind := range []string{"panic", "ioerr", "apperr"} {
+						for _, kind := range []string{"panic", "panic-error", "panic-runtime", "ioerr", "apperr"} {
 							announceCase(fmt.Sprintf("%s %s#%d %s", what, comp, idx, kind))
 							srv.seed()
 							plan := &faultPlan{counts: map[string]int{}, comp: comp, at: idx, kind: kind}
@@ -577,7 +584,7 @@ func childC12(args []string) int {
 								bad = "malformed reply: " + canonAnomaly(err.Error())
 							case !plan.fired:
 								run.Count("faults_not_reached", 1)
-							case kind == "panic" && res.Class != "closed":
+							case strings.HasPrefix(kind, "panic") && res.Class != "closed":
 								// the sentinel was answered, so the loop swallowed the panic and went on
 								bad = "a panic underneath the command does not close the connection"
 								if res.Replies == 0 || (cmd.IsGet() && res.Terminators == 0) {
